@@ -246,6 +246,7 @@ type world struct {
 	docs     map[string][]string // collection -> docIDs created
 	versions map[string][]string // collection -> version ids in order of discovery
 	views    int
+	owner    map[string]int // docID -> identity that created it (acp mode)
 
 	step       int
 	restarts   int
@@ -274,7 +275,7 @@ func edKey(seed byte) []byte {
 
 func run(c Case) (fail *hx.Failure, info *Info) {
 	info = &Info{Flags: map[string]bool{}, Count: map[string]int{}}
-	w := &world{c: c, mode: c.Mode, info: info, docs: map[string][]string{}, versions: map[string][]string{}, sinceStart: map[string]bool{}}
+	w := &world{c: c, mode: c.Mode, info: info, docs: map[string][]string{}, owner: map[string]int{}, versions: map[string][]string{}, sinceStart: map[string]bool{}}
 	if w.mode != "core" && w.mode != "acp" && w.mode != "p2p" {
 		hx.Harnessf("unknown mode %q", c.Mode)
 	}
@@ -380,7 +381,11 @@ func safely(f func() string) (out string) {
 			if he, ok := p.(hx.HarnessError); ok {
 				panic(he)
 			}
-			out = "PANIC at " + hx.PanicSite(string(debug.Stack())) + ": " + fmt.Sprint(p)
+			st := string(debug.Stack())
+			if traceOn {
+				fmt.Printf("panic: %v\n%s\n", p, st)
+			}
+			out = "PANIC at " + hx.PanicSite(st) + ": " + fmt.Sprint(p)
 		}
 	}()
 	return f()
@@ -540,6 +545,9 @@ func (w *world) opRestart() *hx.Failure {
 		if now := w.R.N.Peer.PeerInfo().ID.String(); now != selfBefore {
 			return hx.Failf("C14/restart/peer-id-changed", "step %d: peer id %s before the restart, %s after it (same private key)", w.step, selfBefore, now)
 		}
+	}
+	if _, inv := allocState(w.R); inv != "" {
+		return hx.Failf("C14/restart/identifier-allocation-invariant", "step %d, reopened node: %s\n%s", w.step, inv, w.history())
 	}
 	return w.compareDumps("after-restart")
 }
@@ -868,6 +876,9 @@ func (w *world) opCreate(o Op) *hx.Failure {
 	}
 	if !isErr(rt) {
 		w.docs[name] = append(w.docs[name], ids...)
+		for _, id := range ids {
+			w.owner[id] = who
+		}
 		w.changed("docs")
 		w.info.flag("op:create-ok")
 		if w.afterRst {
@@ -947,7 +958,10 @@ func (w *world) opRel(o Op) *hx.Failure {
 	id := w.docs[name][mod(o.D, len(w.docs[name]))]
 	rel := relNames[mod(o.N, len(relNames))]
 	target := identities[mod(o.X, len(identities))].DID()
-	by := 1 + mod(o.V, 2)
+	by := w.owner[id]
+	if by == 0 || o.B {
+		by = 1 + mod(by, 2) // somebody who does not own the document
+	}
 	rt, f := w.both(o.K, fmt.Sprintf("%s %s %s -> identity%d by %s", name, id, rel, 1+mod(o.X, len(identities)), whoName(by)), func(n *hx.Node, _ bool) string {
 		ctx := withID(n.Ctx, by)
 		if o.K == opAddRel {
@@ -980,6 +994,9 @@ func (w *world) opRel(o Op) *hx.Failure {
 // renderResult renders a GraphQL result as "error: …" / "PANIC…" / canonical data.
 func renderResult(r hx.Result) string {
 	if r.Panic != "" {
+		if traceOn {
+			fmt.Println("panic inside a request:", trimTo(r.Panic, 4000))
+		}
 		return "PANIC at " + hx.PanicSite(r.Panic) + ": " + strings.SplitN(r.Panic, "\n", 2)[0]
 	}
 	if len(r.Errors) > 0 {
